@@ -33,7 +33,7 @@ def stmt_from_bits(bits, alt=False):
 
 def lattice(ctx):
     quick = ctx.tier == 'quick'
-    pvs = (1, 4, 5, 65) if quick else (1, 2, 3, 4, 5, 6, 65, 66)
+    pvs = (1, 2, 4, 5, 65) if quick else (1, 2, 3, 4, 5, 6, 65, 66)
     cases = []
     for mode in ('Legacy', 'Profiles'):
         for kind in ('Simple', 'Bound', 'Batch'):
@@ -133,9 +133,16 @@ def oracle(ctx, case, res):
         w = res.get('wire')
         if w is not None:
             if 'error' in w:
-                # the driver refuses to encode some combinations itself (e.g. keyspace below v5 cannot happen here); report
-                bad.append(('encoded', 'an encodable request', w))
+                # The encoder refuses a request whose protocol version cannot carry an option in effect (it never drops
+                # one silently): conforming.  A rejection without such a cause is a failure.
+                cannot_carry = (kind == 'Batch' and pv < 3 and (res['serial'] or res['ts'] is not None or res['keyspace'] is not None)) or \
+                               (kind != 'Batch' and pv < 2 and (res['serial'] or res['fetch'] or res['paging'] is not None))
+                if w['error'] != 'UnsupportedOperation' or not cannot_carry:
+                    bad.append(('encoded', 'an encodable request', w))
+                else:
+                    ctx.count('encoder', 'rejected: version cannot carry an option in effect')
             else:
+                ctx.count('encoder', 'encoded')
                 for k, v in w.items():
                     mv = res[k]
                     if k in ('fetch', 'serial') and not mv:
